@@ -684,6 +684,8 @@ type vTransRun struct {
 	caseNo     int
 	signatures map[string]bool
 	current    *vTransConn
+	script     int
+	seed       int64
 	heldL      map[int][]int // key -> LockIds holding it at the leader (as far as the relayed results say)
 }
 
@@ -699,7 +701,8 @@ func (x *vTransRun) report(sig, what string) {
 		return
 	}
 	x.signatures[sig] = true
-	x.out.monitor(sig, what, map[string]interface{}{"line": x.line(), "impl": strings.Join(x.obs, ";"), "event": len(x.ops) - 1, "case": x.caseNo})
+	x.out.monitor(sig, what, map[string]interface{}{"line": x.line(), "impl": strings.Join(x.obs, ";"), "event": len(x.ops) - 1, "case": x.caseNo, "script": x.script,
+		"seed": x.seed, "rerun": fmt.Sprintf("VERIF_SEED=%d VERIF_TRANS_FIRST=%d VERIF_TRANS_SCRIPT=%d VERIF_N=1 (mode trans)", x.seed, x.caseNo, x.script)})
 }
 
 func (x *vTransRun) nonLeader() bool { return x.role != STATE_LEADER }
@@ -2040,7 +2043,7 @@ var vTransScripts = []func(x *vTransRun){vTransScriptBinary, vTransScriptText, v
 
 func vTransCase(w *vTransWorld, out *vOut, seed int64, idx int, script int) {
 	x := &vTransRun{w: w, r: rand.New(rand.NewSource(seed*1000003 + int64(idx))), out: out, role: STATE_SYNC, addr: 1, owner: map[int]*vTransConn{}, reqs: map[int]*vTransReq{},
-		twinGot: map[int][]*vTransFrame{}, twinSent: map[int]bool{}, fwdFrames: map[int]*vTransFrame{}, lost: map[int]bool{}, heldL: map[int][]int{}, results: map[int][]string{}, signatures: map[string]bool{}, caseNo: idx}
+		twinGot: map[int][]*vTransFrame{}, twinSent: map[int]bool{}, fwdFrames: map[int]*vTransFrame{}, lost: map[int]bool{}, heldL: map[int][]int{}, results: map[int][]string{}, signatures: map[string]bool{}, caseNo: idx, script: script, seed: seed}
 	// baseline: state SYNC, the live leader address, no links left over from the case before
 	w.F.s.updateState(STATE_SYNC)
 	w.F.s.replicationManager.leaderAddress = ""
@@ -2076,9 +2079,22 @@ func vTransCase(w *vTransWorld, out *vOut, seed int64, idx int, script int) {
 			}
 		}
 	}()
-	for t, rs := range x.results {
+	var toks []int
+	for t := range x.results {
+		toks = append(toks, t)
+	}
+	sort.Ints(toks)
+	for _, t := range toks {
+		rs := x.results[t]
 		if len(rs) > 1 {
-			x.report("C10:two-results-for-one-request", fmt.Sprintf("token %d got %d results: %s", t, len(rs), strings.Join(rs, " ; ")))
+			isErr := func(s string) bool { return strings.Contains(s, fmt.Sprintf(",%d,11,", t)) || strings.HasPrefix(s, "T:11,") }
+			cause := "other"
+			if isErr(rs[0]) && !isErr(rs[1]) {
+				cause = "rerouted-after-rollback" // ERROR fabricated at the link loss, then the leader's real answer over the new link
+			} else if !isErr(rs[0]) && isErr(rs[1]) {
+				cause = "rollback-after-answer" // the answer overtook Write's bookkeeping; the link loss "rolls back" an answered request
+			}
+			x.report("C10:two-results-for-one-request:"+cause, fmt.Sprintf("request %d was answered %d times: %s", t, len(rs), strings.Join(rs, " ; ")))
 		}
 	}
 	out.emit(x.line(), strings.Join(x.obs, ";"))
@@ -2097,7 +2113,8 @@ func init() {
 		w := vTransNewWorld(base)
 		defer w.stop()
 		only := vEnvInt("VERIF_TRANS_SCRIPT", -1)
-		for i := 0; i < n; i++ {
+		first := vEnvInt("VERIF_TRANS_FIRST", 0)
+		for i := first; i < first+n; i++ {
 			sc := i % len(vTransScripts)
 			if only >= 0 {
 				sc = only
